@@ -557,7 +557,10 @@ func (e *c31Env) runCase(c c31Case) (res c31Result) {
 					}
 				}
 				op.kinds = append(op.kinds, ks)
-				shape = append(shape, fmt.Sprintf("%s/%d/%s", b.Codec, b.Variant, strings.Join(cls, ",")))
+				ncls := len(cls)
+				sort.Strings(cls)
+				cls = c31Uniq(cls)
+				shape = append(shape, fmt.Sprintf("%s/%d/%d:%s", b.Codec, b.Variant, ncls, strings.Join(cls, ",")))
 			}
 			op.data = append([]byte(nil), data...)
 			ops = append(ops, op)
@@ -1004,7 +1007,7 @@ type c31Found struct {
 func TestVerifC31(t *testing.T) {
 	rep := vh.New(t, "C31")
 	defer rep.Finish()
-	rep.Rule = "cases = produce requests generated from four bounded products (L1 record sequences in one batch, L2 batch pairs, L3 topic/partition topologies, L4 values around the 5 MiB upload chunk size) over a fixed record-kind alphabet; each is rewritten by the real rewriteProduceRecords and decoded independently. Outcome signature = {rewritten|untouched|rejected} + topology shape + set of (codec, header variant, record classes) of its batches. Non-trivial = the request holds >=1 flagged record and was rewritten (so envelope, object, header and re-framing checks all ran)."
+	rep.Rule = "cases = produce requests generated from four bounded products (L1 record sequences in one batch, L2 batch pairs, L3 topic/partition topologies, L4 values around the 5 MiB upload chunk size) over a fixed record-kind alphabet; each is rewritten by the real rewriteProduceRecords and decoded independently. Outcome signature = {rewritten|untouched|rejected} + topology shape + set of (codec framing, header variant, record count, set of record classes) of its batches. Non-trivial = the request holds >=1 flagged record and was rewritten (so envelope, object, header and re-framing checks all ran)."
 	rep.Assumptions = []string{
 		"fake s3API: PutObject stores the body atomically; multipart completion follows the S3 rules and assembles exactly the listed parts",
 		"franz-go kgo compressor/decompressor are trusted for producing compressed inputs and for decompressing the rewritten record areas; batch framing, CRC and records are decoded by the independent enum codec",
